@@ -1109,13 +1109,44 @@ func (e *Exec) stdlibCall(st *State, call *ast.CallExpr, fn *types.Func, key str
 		return []Term{Sub(IntLit(64), mk(SInt, "bvlz", e.toSort(args[0].T, SBV64)))}, true
 	case "errors.New", "fmt.Errorf":
 		return []Term{e.nonNilError(st)}, true
+	case "io.ReadAtLeast", "io.ReadFull":
+		// func ReadAtLeast(r Reader, buf []byte, min int) (n int, err error): 0 <= n <= len(buf); err == nil ==> n >= min; writes buf only
+		buf := args[1]
+		min := SLen(buf.T)
+		if full == "io.ReadAtLeast" {
+			min = args[2].T
+		}
+		bt := types.NewSlice(types.Typ[types.Uint8])
+		key := elemKey(bt.Elem())
+		e.heapInit(key, bt.Elem())
+		e.havocLocs(st, []modLoc{{key: key, ref: SRef(buf.T), lo: SOff(buf.T), hi: Add(SOff(buf.T), SLen(buf.T)), isElem: true}}, call.Pos())
+		n := e.fresh("nread", SInt)
+		errv := e.fresh("rerr", SCont)
+		e.assumeGlobal(e.rangeFact(errv, fn.Type().(*types.Signature).Results().At(1).Type()))
+		e.assumeGlobal(And(Le(IntLit(0), n), Le(n, SLen(buf.T))))
+		e.assume(st, Implies(Eq(CKind(errv), IntLit(0)), Ge(n, min)))
+		e.note("stdlib", "io.ReadAtLeast/ReadFull: 0 <= n <= len(buf), err == nil ==> n >= min, writes only buf (documented contract)")
+		return []Term{n, errv}, true
 	case "fmt.Sprintf", "fmt.Sprint", "fmt.Sprintln":
 		return []Term{e.fresh("str", SInt)}, true
 	case "fmt.Printf", "fmt.Println", "fmt.Print":
 		return []Term{IntLit(0), NilCont}, true
 	}
-	if strings.HasPrefix(path, "github.com/RoaringBitmap/roaring") {
-		return nil, false
+	if path == "encoding/binary" && recv != nil {
+		need := map[string]int64{"Uint16": 2, "Uint32": 4, "Uint64": 8, "PutUint16": 2, "PutUint32": 4, "PutUint64": 8}[fn.Name()]
+		if need > 0 && len(args) > 0 && args[0].T.Sort == SSlice {
+			e.oblige(st, "idx", "", Ge(SLen(args[0].T), IntLit(need)), fmt.Sprintf("encoding/binary %s: buffer holds at least %d bytes", fn.Name(), need), call.Pos())
+			e.note("stdlib", "encoding/binary little/big-endian accessors: panic iff the buffer is too short; decoded value arbitrary within its type")
+			sig := fn.Type().(*types.Signature)
+			if strings.HasPrefix(fn.Name(), "Put") {
+				bt := types.Typ[types.Uint8]
+				key := elemKey(bt)
+				e.heapInit(key, bt)
+				e.havocLocs(st, []modLoc{{key: key, ref: SRef(args[0].T), lo: SOff(args[0].T), hi: Add(SOff(args[0].T), IntLit(need)), isElem: true}}, call.Pos())
+				return nil, true
+			}
+			return []Term{e.havocValue(st, "le", sig.Results().At(0).Type())}, true
+		}
 	}
 	return nil, false
 }
